@@ -235,7 +235,7 @@ theorem wrapK (r : Host) (q : Nat) {α : Type} {body : M α} {Q : α → Prop} (
 theorem WK (r : Host) (name : String) (q : Nat) {α : Type} {body : M α} {Q : α → Prop}
     (hw : (goodCfg r).wrapped.contains name = true) (hb : TriK (EB q) body Q) :
     TriK (EO q) (W (goodCfg r) name q body) Q := by
-  unfold W; rw [if_pos hw]; exact wrapK r q hb
+  unfold W; rw [if_neg (by simp [goodCfg]), if_pos hw]; exact wrapK r q hb
 
 variable (r : Host)
 
